@@ -19,6 +19,10 @@ from pyvc.runner import Lemma, Bounded
 from pyvc.lib import c06_models as cm
 from .common import registry, forall, implies, AND, OR, NOT
 
+# The runner pretty-prints every goal for the evidence file (then keeps 300 characters); the resampling goals are large
+# conditional index expressions whose full infix rendering costs ~1 s each.  Bound the pretty-printer, not the goals.
+z3.set_option(max_visited=80, max_depth=6, max_args=8, max_lines=8)
+
 LEVEL = "proof"
 DS = "quantem.core.datastructures.dataset"
 VA = "quantem.core.utils.validators"
@@ -741,7 +745,174 @@ def fr_contract(d, layer, shard=0, nshards=1):
 FR_CONTRACTS = ([fr_contract(4, "axes", k, 4) for k in range(4)] + [fr_contract(3, "axes", k, 2) for k in range(2)] + [fr_contract(4, "forms"), fr_contract(3, "forms")]
                 + [fr_contract(d, layer) for d in (2, 1) for layer in ("axes", "forms")])
 
-CONTRACTS = FR_CONTRACTS + list(reversed(BIN_CONTRACTS)) + [C_BIN_NEG]
+
+# ------------------------------------------------------------------------------------------------
+# Dataset.pad / Dataset.crop
+# ------------------------------------------------------------------------------------------------
+
+PAD_SCENARIOS = ["output_shape", "output_shape-edge", "width-int", "width-pair", "width-per-axis", "width-per-axis-edge",
+                 "both-given", "neither-given", "length-mismatch"]
+
+
+def pad_setup(d):
+    def setup(ctx):
+        si, sc = choose(ctx, "scenario", PAD_SCENARIOS)
+        ii, inplace = choose(ctx, "inplace_opt", [False, True]) if sc in PAD_SCENARIOS[:6] else (0, False)
+        o = ds_obj(ctx, d)
+        n = [lift(x) for x in o.fields["_array"].shape]
+        pad_width = output_shape = None
+        kwargs = {"mode": "edge"} if sc.endswith("-edge") else {}
+        widths = None  # expected (before, after) per axis, as terms
+        Ms = None
+        if sc.startswith("output_shape") or sc in ("both-given", "length-mismatch"):
+            Ms = [ctx.fresh(f"M{i}", "int") for i in range(d)]
+            output_shape = tuple(Ms)
+            widths = []
+            for i in range(d):
+                diff = lift(Ms[i]) - n[i]
+                fl, ce = diff / 2, -((-diff) / 2)  # floor / ceil of diff/2 (z3 integer division by 2 is floor)
+                widths.append((z3.If(fl > 0, fl, 0), z3.If(ce > 0, ce, 0)))
+        if sc == "length-mismatch":
+            output_shape = output_shape + (ctx.fresh("M_extra", "int"),)
+        if sc == "width-int" or sc == "both-given":
+            w = ctx.fresh("w", "int")
+            pad_width = w
+            if sc == "width-int":
+                widths = [(w.t, w.t)] * d
+        if sc == "width-pair":
+            b, a = ctx.fresh("b", "int"), ctx.fresh("a", "int")
+            pad_width = (b, a)
+            widths = [(b.t, a.t)] * d
+        if sc.startswith("width-per-axis"):
+            ws = [(ctx.fresh(f"b{i}", "int"), ctx.fresh(f"a{i}", "int")) for i in range(d)]
+            pad_width = tuple(ws)
+            widths = [(b.t, a.t) for b, a in ws]
+        label = f"{d}D {sc} {'in-place' if inplace else 'copy'}"
+        cfg = NS(d=d, scenario=sc, inplace=inplace, widths=widths, Ms=Ms, constant=not kwargs, label=label)
+        return NS(self=o, pad_width=pad_width, output_shape=output_shape, modify_in_place=inplace, kwargs=kwargs, cfg=cfg, case=label)
+
+    return setup
+
+
+def metadata_unchanged(s, tgt):
+    org, smp = tgt.fields.get("_origin"), tgt.fields.get("_sampling")
+    d = len(s.old.shape)
+    if not (isinstance(org, SymArr) and isinstance(smp, SymArr) and org.shape == (d,) and smp.shape == (d,)):
+        return False
+    return AND(*[AND(lift(S(org.fn(z3.IntVal(i)))) == lift(S(s.old.origin(z3.IntVal(i)))),
+                     lift(S(smp.fn(z3.IntVal(i)))) == lift(S(s.old.sampling(z3.IntVal(i))))) for i in range(d)])
+
+
+def pad_ensures(s):
+    c = s.cfg
+    d = c.d
+    L = lambda t: f"[{c.label}] {t}"
+    tgt = s.self if c.inplace else s.result
+    if c.inplace:
+        out = [(L("frame: returns None; only the array of self is replaced"), s.result is None and other_fields_untouched(s, ("_array",)))]
+    else:
+        out = frame_post(s, c, L)
+    if not isinstance(tgt, Obj):
+        return out
+    arr = tgt.fields.get("_array")
+    if not (isinstance(arr, SymArr) and arr.ndim == d):
+        return out + [(L("array is d-dimensional"), False)]
+    n = [lift(x) for x in s.old.shape]
+    W = c.widths
+    out.append((L("shape: n + before + after on every axis" + (" (= output_shape where it is not smaller than n; floor/ceil split)" if c.Ms else "")),
+                AND(*[lift(arr.shape[i]) == n[i] + W[i][0] + W[i][1] for i in range(d)])))
+    j = [I(f"j{i}") for i in range(d)]
+    inside = AND(*[AND(j[i] >= W[i][0], j[i] < W[i][0] + n[i]) for i in range(d)])
+    inr = AND(*[AND(j[i] >= 0, j[i] < n[i] + W[i][0] + W[i][1]) for i in range(d)])
+    src = lift(S(s.old.afn(*[j[i] - W[i][0] for i in range(d)])))
+    val = lift(S(arr.fn(*j)))
+    out.append((L("interior: out[before + j] = in[j]"), implies(inside, val == src)))
+    if c.constant:
+        out.append((L("border: zero outside the interior (default constant mode)"), implies(AND(inr, NOT(inside)), val == 0)))
+    out.append((L("origin and sampling values unchanged"), metadata_unchanged(s, tgt)))
+    return out
+
+
+def pad_value_error(s):
+    c = s.cfg
+    if c.scenario in ("both-given", "neither-given", "length-mismatch"):
+        return True
+    if c.scenario.startswith("width"):
+        return OR(*[OR(b < 0, a < 0) for b, a in c.widths])
+    return False
+
+
+def pad_contract(d):
+    return CaseContract(f"{DS}:Dataset.pad", setup=pad_setup(d), ensures=pad_ensures, snapshot=snap, raises={ValueError: pad_value_error},
+                        max_paths=4000, note=f"{d}-D")
+
+
+def crop_setup(d):
+    aopts = axes_options(d, negative=False)
+
+    def setup(ctx):
+        si, sc = choose(ctx, "scenario", ["normal", "length-mismatch-none", "length-mismatch-axes"] if d <= 2 else ["normal"])
+        ai, (aform, axes, denoted) = choose(ctx, "axes_opt", aopts) if sc == "normal" else (0, aopts[0] if sc.endswith("none") else aopts[1])
+        ii, inplace = choose(ctx, "inplace_opt", [False, True])
+        o = ds_obj(ctx, d)
+        n = [lift(x) for x in o.fields["_array"].shape]
+        k = len(denoted)
+        cw = [(ctx.fresh(f"lo{q}", "int"), ctx.fresh(f"hi{q}", "int")) for q in range(k)]
+        crop_widths = tuple(cw)
+        if sc != "normal":
+            crop_widths = crop_widths + ((ctx.fresh("lo_x", "int"), ctx.fresh("hi_x", "int")),)
+        if aform == "int" and sc == "normal":
+            crop_widths = crop_widths + ((ctx.fresh("lo_ignored", "int"), ctx.fresh("hi_ignored", "int")),)  # the int form uses the first pair only
+        # the documented use: (min, max) with 0 <= min <= max <= n, or max <= 0 counted from the end (0 = up to the end)
+        stop = {}
+        for q, a in enumerate(denoted):
+            lo, hi = cw[q][0].t, cw[q][1].t
+            st = z3.If(hi > 0, hi, n[a] + hi)
+            stop[a] = (lo, st)
+            if sc == "normal":
+                ctx.assume(z3.And(lo >= 0, lo <= st, st <= n[a]))
+        label = f"{d}D axes={axes!r} {'in-place' if inplace else 'copy'}" + ("" if sc == "normal" else f" {sc}")
+        cfg = NS(d=d, scenario=sc, inplace=inplace, axes=axes, denoted=denoted, stop=stop, label=label)
+        return NS(self=o, crop_widths=crop_widths, axes=axes, modify_in_place=inplace, cfg=cfg, case=label)
+
+    return setup
+
+
+def crop_ensures(s):
+    c = s.cfg
+    d = c.d
+    L = lambda t: f"[{c.label}] {t}"
+    tgt = s.self if c.inplace else s.result
+    if c.inplace:
+        out = [(L("frame: returns None; only the array of self is replaced"), s.result is None and other_fields_untouched(s, ("_array",)))]
+    else:
+        out = frame_post(s, c, L)
+    if not isinstance(tgt, Obj):
+        return out
+    arr = tgt.fields.get("_array")
+    if not (isinstance(arr, SymArr) and arr.ndim == d):
+        return out + [(L("array is d-dimensional"), False)]
+    n = [lift(x) for x in s.old.shape]
+    lo = [c.stop[i][0] if i in c.stop else z3.IntVal(0) for i in range(d)]
+    hi = [c.stop[i][1] if i in c.stop else n[i] for i in range(d)]
+    out.append((L("shape: max - min on cropped axes (max <= 0 counted from the end), the others keep theirs"),
+                AND(*[lift(arr.shape[i]) == hi[i] - lo[i] for i in range(d)])))
+    j = [I(f"j{i}") for i in range(d)]
+    inr = AND(*[AND(j[i] >= 0, j[i] < hi[i] - lo[i]) for i in range(d)])
+    out.append((L("out[j] = in[min + j]"), implies(inr, lift(S(arr.fn(*j))) == lift(S(s.old.afn(*[lo[i] + j[i] for i in range(d)]))))))
+    out.append((L("origin and sampling values unchanged"), metadata_unchanged(s, tgt)))
+    return out
+
+
+def crop_contract(d):
+    return CaseContract(f"{DS}:Dataset.crop", setup=crop_setup(d), ensures=crop_ensures, snapshot=snap,
+                        raises={ValueError: lambda s: s.cfg.scenario != "normal"}, max_paths=4000, note=f"{d}-D")
+
+
+PAD_CONTRACTS = [pad_contract(d) for d in (4, 3, 2, 1)]
+CROP_CONTRACTS = [crop_contract(d) for d in (4, 3, 2, 1)]
+
+CONTRACTS = FR_CONTRACTS + list(reversed(BIN_CONTRACTS)) + PAD_CONTRACTS + CROP_CONTRACTS + [C_BIN_NEG]
 LEMMAS = []
 BOUNDED = []
 TRUSTED = []
